@@ -1,6 +1,6 @@
 (* KV.C25.Witness — non-vacuity: concrete users / targets satisfy the hypotheses of the theorems,
    the model is not trivially "denied", and the premises are needed. *)
-From Coq Require Import List NArith Bool.
+From Coq Require Import List NArith Bool String.
 Import ListNotations.
 Require Import KV.C24.Model KV.C24.Proofs KV.C25.Builtin KV.C25.Model KV.C25.Proofs.
 Open Scope N_scope.
@@ -81,6 +81,23 @@ Example C25_witness_limited_roles :
   /\ mem G_PEOPLE_ADMINS (hp_writers (ac_modify builtin)) = true
   /\ modify_entry service_desk builtin hp_person [MPurged A_PrimaryCredential] = false.
 Proof. vm_compute. repeat split; reflexivity. Qed.
+
+(* hypothesis of C25_limited_roles_denied holds for the service desk member; a people admin is not
+   a limited user *)
+Example C25_witness_limited_subject :
+  subject_limited service_desk hp_person = true /\ subject service_desk hp_person = false
+  /\ limited_user people_admin = false /\ limited_user low_user = true.
+Proof. vm_compute. repeat split; reflexivity. Qed.
+
+(* the numbers in LIMITED_ROLES are the groups meant (names from the generated data) *)
+Fixpoint name_of (g : N) (l : list (N * String.string)) : String.string :=
+  match l with [] => String.EmptyString | (k, s) :: r => if g =? k then s else name_of g r end.
+Example C25_witness_limited_role_names :
+  map (fun g => name_of g group_names) LIMITED_ROLES =
+  ["idm_service_desk"; "idm_people_on_boarding"; "idm_group_admins"; "idm_service_account_admins";
+   "idm_oauth2_account_admins"]%string
+  /\ name_of HP group_names = "idm_high_privilege"%string.
+Proof. vm_compute. split; reflexivity. Qed.
 
 (* C25_not_hp_means_no_hp_role is not vacuous, and consistency matters: a memberof that lists
    idm_people_admins without HP is NOT consistent with the shipped nesting *)
